@@ -86,32 +86,28 @@ def translate_pop_sites(path, repo_rel):
     src = open(path).read()
     fn = py2coq.find_function(ast.parse(src), 'MoleculeIterator.__iter__')
     sites = {}
-    for loop in ast.walk(fn):
-        if not isinstance(loop, ast.For):
-            continue
-        pops = [c for st in loop.body for c in ast.walk(st)
-                if isinstance(c, ast.Call) and isinstance(c.func, ast.Attribute) and c.func.attr == 'pop']
-        inner = [c for st in loop.body if isinstance(st, (ast.For, ast.While)) for c in ast.walk(st)
-                 if isinstance(c, ast.Call) and isinstance(c.func, ast.Attribute) and c.func.attr == 'pop']
-        pops = [c for c in pops if c not in inner]
-        if not pops:
-            continue
-        if ast.unparse(loop.target) != '(i, j)' or ast.unparse(loop.iter) != 'enumerate(to_pop)':
-            raise Untranslatable('pop loop header changed at line %d: for %s in %s'
-                                 % (loop.lineno, ast.unparse(loop.target), ast.unparse(loop.iter)))
-        if len(pops) != 1 or len(pops[0].args) != 1 or pops[0].keywords:
-            raise Untranslatable('pop loop at line %d: expected exactly one pop(expr)' % loop.lineno)
-        recv = ast.unparse(pops[0].func.value)
+    parent = {}
+    for n in ast.walk(fn):
+        for c in ast.iter_child_nodes(n):
+            parent[c] = n
+    allpops = [c for c in ast.walk(fn) if isinstance(c, ast.Call) and isinstance(c.func, ast.Attribute) and c.func.attr == 'pop']
+    for call in allpops:
+        loop = parent.get(call)
+        while loop is not None and not isinstance(loop, (ast.For, ast.While)):
+            loop = parent.get(loop)
+        if not isinstance(loop, ast.For) or ast.unparse(loop.target) != '(i, j)' or ast.unparse(loop.iter) != 'enumerate(to_pop)':
+            raise Untranslatable('pop call at line %d is not directly inside `for i, j in enumerate(to_pop)`' % call.lineno)
+        if len(call.args) != 1 or call.keywords:
+            raise Untranslatable('pop call at line %d: expected pop(expr)' % call.lineno)
+        if sum(1 for c in ast.walk(loop) if c in allpops) != 1:
+            raise Untranslatable('pop loop at line %d: expected exactly one pop' % loop.lineno)
+        recv = ast.unparse(call.func.value)
         name = {'self.molecules': 'pop_index_flat', 'self.molecules_per_cell[hash_group]': 'pop_index_grouped'}.get(recv)
         if name is None or name in sites:
-            raise Untranslatable('unexpected pop receiver %r at line %d' % (recv, loop.lineno))
-        sites[name] = pops[0]
+            raise Untranslatable('unexpected pop receiver %r at line %d' % (recv, call.lineno))
+        sites[name] = call
     if sorted(sites) != ['pop_index_flat', 'pop_index_grouped']:
         raise Untranslatable('expected the two ejection pop loops, found %r' % sorted(sites))
-    # every other .pop( in the function would be an unmodelled buffer mutation
-    allpops = [c for c in ast.walk(fn) if isinstance(c, ast.Call) and isinstance(c.func, ast.Attribute) and c.func.attr == 'pop']
-    if len(allpops) != 2:
-        raise Untranslatable('MoleculeIterator.__iter__ has %d pop calls, expected 2' % len(allpops))
     chunks, meta = [], []
     for name in ('pop_index_flat', 'pop_index_grouped'):
         call = sites[name]
